@@ -3,6 +3,7 @@ import re
 
 import broker
 import engine
+import proxyq
 import mir
 import sig
 from c02 import all_match, any_match
@@ -27,6 +28,11 @@ def run(rep):
     rep.trusted = ["rustc nightly MIR", "HashSet/HashMap entry semantics (insert/remove/is_empty)"]
     prog = broker.load(config=engine.config_for("C04"))
     M = broker.methods(prog)
+
+    # ---- R7 the client's proxy multiplexer (one broker subscription for any number of proxies) ----
+    if not rep.matrix:
+        cprog = mir.Program(engine.ensure_facts(engine.config_for("C04")), crates=["aldrin"])
+        proxyq.check(rep, cprog, "C04-R7")
 
     # ---- R1 fan-out ----------------------------------------------------------------------------
     ee = M["emit_event"]
